@@ -1,5 +1,6 @@
 #!/bin/bash
 # tools/try_seed.sh <outdir> <i> <name> <prop> [more props]: confirm a seeded change in a scratch worktree, run checks against it, store under seeded/<name>/
+ROOT="$(cd "$(dirname "$0")/.." && pwd)"
 out="$1"; i="$2"; name="$3"; shift 3
 patch="$out/patch_$i.diff"; demo="$out/demo_$i.py"; meta="$out/meta_$i.json"
 wt=$(mktemp -d /tmp/seedwt-XXXX); rmdir "$wt"
@@ -11,21 +12,21 @@ tests=$(cd "$wt" && /venv/bin/python -m pytest -q -p no:cacheprovider 2>&1 | tai
 ( cd "$wt" && PYTHONPATH="$wt" TMPDIR=$(mktemp -d) /venv/bin/python "$demo" >/dev/null 2>&1 ); mut_rc=$?
 git -C /repo worktree remove --force "$wt"
 echo "confirm: demo clean rc=$clean_rc, with change rc=$mut_rc, tests: $tests"
-mkdir -p /verif/seeded/$name
-cp "$patch" /verif/seeded/$name/patch.diff; cp "$demo" /verif/seeded/$name/demo.py
+mkdir -p "$ROOT/seeded/$name"
+cp "$patch" "$ROOT/seeded/$name/patch.diff"; cp "$demo" "$ROOT/seeded/$name/demo.py"
 results=""
 sc=$(mktemp -d /tmp/seedsc-XXXX); cp -r /repo/tinyflux "$sc/tinyflux"; ( cd "$sc" && patch -p1 -s < "$patch" ) || { echo "cannot apply to scratch copy"; exit 3; }
 for p in "$@"; do
-  r=$(cd /verif && PYVC_REPO="$sc" ./check $p 2>&1 | grep -v WARNING | grep -E "^(VIOLATION|UNDECIDED|CHECKER|C[0-9]+ tier|  failed obligation|  bounded)" | head -12)
+  r=$(cd "$ROOT" && PYVC_REPO="$sc" ./check $p 2>&1 | grep -v WARNING | grep -E "^(VIOLATION|UNDECIDED|CHECKER|C[0-9]+ tier|  failed obligation|  bounded)" | head -12)
   rc=$(echo "$r" | grep -c "^VIOLATION")
   echo "== $p: violations=$rc"; echo "$r" | cut -c1-220
   results="$results $p:$rc"
 done
 rm -rf "$sc"
-python3 - "$meta" "$name" "$clean_rc" "$mut_rc" "$tests" "$results" <<'PY'
+python3 - "$meta" "$name" "$clean_rc" "$mut_rc" "$tests" "$results" "$ROOT" <<'PY'
 import json, sys
 meta=json.load(open(sys.argv[1])); name=sys.argv[2]
 meta.update(confirmed=dict(demo_rc_clean=int(sys.argv[3]), demo_rc_with_change=int(sys.argv[4]), test_suite=sys.argv[5], how="demo and test suite in a scratch git worktree of /repo HEAD under /tmp; checks run against a scratch copy of /repo/tinyflux with the patch (PYVC_REPO); both removed afterwards (tools/try_seed.sh)"),
             checks={kv.split(':')[0]: ('VIOLATION reported' if int(kv.split(':')[1]) else 'not reported') for kv in sys.argv[6].split()})
-json.dump(meta, open('/verif/seeded/%s/meta.json'%name,'w'), indent=1)
+json.dump(meta, open('%s/seeded/%s/meta.json'%(sys.argv[7],name),'w'), indent=1)
 PY
